@@ -64,11 +64,12 @@ class Invariants:
 
 
 class Obligation:
-    __slots__ = ("key", "fn", "kind", "desc", "ln", "ok", "bad", "detail")
+    __slots__ = ("key", "fn", "kind", "desc", "ln", "ok", "bad", "detail", "doc")
 
     def __init__(self, key, fn, kind, desc, ln):
         self.key, self.fn, self.kind, self.desc, self.ln = key, fn, kind, desc, ln
         self.ok = 0
+        self.doc = 0
         self.bad = []
         self.detail = None
 
@@ -95,6 +96,12 @@ class Engine:
         self.fn_analysed = set()
         self.callstack = []
         self.lossy_scope = None      # None = everywhere
+        self.just = {}               # reviewed (fn, kind, desc) justifications: such a site does not count as a failure below a call
+        self.deprecated = set()
+        self.docpanic = set()        # documented panickers (root set D): a failing obligation below one is charged to the call that enters it
+        self.failstack = [0]
+        self.memo_fails = {}
+        self.last_fails = 0
         self._tcache = {}
         import stdmodels
         self.std = stdmodels.build(self)
@@ -325,6 +332,15 @@ class Engine:
         if ok:
             o.ok += 1
         else:
+            if (fnname, kind, desc) in self.just:
+                if not o.bad:
+                    o.bad.append("(justified site)")
+                return
+            self.failstack[-1] += 1
+            if self.docpanic and any(f in self.docpanic for f in self.callstack):
+                # inside a documented panicker: the panic is its contract; the entering call site carries the obligation
+                o.doc += 1
+                return
             if len(o.bad) < 3:
                 o.bad.append(" <- ".join(reversed(self.callstack[-6:])))
             if detail and o.detail is None:
@@ -338,7 +354,10 @@ class Engine:
             return None
         key = (fpath, tuple(args))
         if key in self.memo:
+            self.last_fails = self.memo_fails.get(key, 0)
+            self.failstack[-1] += self.last_fails
             return self.memo[key]
+        self.last_fails = 0
         if key in self.inprogress or depth > self.depth_limit or self.contexts > self.ctx_limit:
             f = P.fn(fpath)
             ret = ("t", f["mir"]["locals"][0])
@@ -346,12 +365,17 @@ class Engine:
         self.inprogress.add(key)
         self.contexts += 1
         self.callstack.append(fpath)
+        self.failstack.append(0)
         try:
             import absfn
             res = absfn.run(self, fpath, args, depth)
         finally:
             self.callstack.pop()
             self.inprogress.discard(key)
+            n = self.failstack.pop()
+            self.failstack[-1] += n
+        self.last_fails = n
+        self.memo_fails[key] = n
         self.memo[key] = res
         self.fn_analysed.add(fpath)
         return res
